@@ -305,6 +305,9 @@ def corpus_net(rng, name):
         b.t(m).shape = list(b.t(x).shape)
         _same_quant(b, m, x)
         z = b.binary("MAXIMUM", x, m)
+    elif name == "known_avgpool_wide_stride":
+        # width stride 8: lowered to a convolution (width folded by fixup_strided_conv); depth 2
+        z = b.pool(x, "AVERAGE_POOL_2D", (2, 4), (2, 8), "VALID")
     elif name == "known_dilation3_uint8":
         # dilation 3 is done in software (sparse kernel); uint8 weights have a non-zero zero point
         z = b.conv(x, 4, (3, 3), (1, 1), (3, 3), "SAME", act=0)
@@ -435,6 +438,12 @@ def classify_failure(o, ans):
     """stable key of the open known finding (see known_findings.txt), or None. Only the structure of the source network
     is consulted; the verdict itself is Lean's."""
     g = o.get("src_graph") or []
+    if "weights_do_not_fit_the_IFM_depth" in ans:
+        # AVERAGE_POOL_2D with a width stride >= 4 lowered to a convolution with one input channel
+        shapes, strides = o.get("src_shapes") or [], o.get("src_strides") or []
+        for n_op, (kind, ins, outs, faf, pad, stride) in enumerate(g):
+            if kind == "AVERAGE_POOL_2D" and n_op < len(strides) and strides[n_op][1] >= 4 and ins[0] < len(shapes) and shapes[ins[0]][-1] > 1:
+                return "avgpool-wide-stride-as-conv:weights-have-one-input-channel"
     if ans.endswith("verdict=fail"):
         # Maximum(x, Mul(x, c)) with a constant scalar c taken for LeakyRelu / Relu / Abs on its quantised value
         quant, scalars = o.get("src_quant") or [], o.get("src_scalars") or {}
@@ -522,7 +531,8 @@ def main():
                                                               "slice_window", "lut_reshape", "cascade_stale_row", "pad_avgpool_act", "slice_of_slice", "slice_strided_conv", "fc_int16",
                                                               "slice_strided_pool", "pad_concat", "pad_strided_dw", "lrelu16_relu6", "lrelu16_reshape",
                                                               "mulmax_gt1", "mulmax_q0", "mulmax_qm1", "lrelu16_rounding", "pad_hw_and_channel",
-                                                              "sconv_unit_output", "sconv_filter_shift", "dilation3_uint8")]
+                                                              "sconv_unit_output", "sconv_filter_shift", "dilation3_uint8",
+                                                              "avgpool_wide_stride")]
     jobs += [(ck.seed, i, PROFILES[i % len(PROFILES)], k_inputs) for i in range(n)]
     ctx = multiprocessing.get_context("fork")
     t0 = time.time()
